@@ -111,6 +111,10 @@ fn pick_tags(r: &mut Rng) -> Vec<&'static str> {
 pub fn run(ctx: &mut Ctx) {
     adblock::verif::set_regex_shadow(true);
     adblock::verif::set_logging(true, 1 << 14);
+    if ctx.extra.contains_key("miri") {
+        miri_history(ctx);
+        return;
+    }
     engine_histories(ctx);
     blocker_histories(ctx);
 }
@@ -336,6 +340,80 @@ fn engine_histories(ctx: &mut Ctx) {
             h.regex_events = regex_events;
             h.reuse = reuse;
             h.nt = h.state_changes > 0 && queries_after_change > 0 && regex_events >= 2;
+            h.sample = json!({"rules": rules, "history": history});
+            h
+        });
+        absorb(ctx, sub, idx, out);
+    }
+}
+
+/// A short, fixed-shape history for the Miri interpreter (regex compilation costs seconds there):
+/// the free-then-reallocate tag pattern, a reload, and a discard, each followed by a query that is
+/// compared with a fresh engine. Run with `-Zmiri-address-reuse-rate=1.0`, so that freed rule
+/// addresses are handed out again immediately; also checks the pointer-as-key code for UB.
+fn miri_history(ctx: &mut Ctx) {
+    let sub = "miri";
+    let cases = ctx.n(1, 3);
+    for idx in 0..cases {
+        if !ctx.begin_case(sub, idx) {
+            continue;
+        }
+        let seed = ctx.seed;
+        let out = guarded(|| {
+            let _ = adblock::verif::take_events();
+            let mut r = Rng::for_case(seed, "c06.miri", idx);
+            let a = r.ps(&["ab", "cd", "ef"]);
+            let b = r.ps(&["zz", "yy", "xx"]);
+            let rules: Vec<String> = vec![
+                format!("/{}*c^$tag=t1", a),
+                format!("/{}*y^$tag=t2", b),
+                "||ads.net^".to_string(),
+                format!("@@/{}*ok^$tag=t2", a),
+            ];
+            let u1 = format!("https://x.com/{}1c/", a);
+            let u2 = format!("https://x.com/{}1y/", b);
+            let mut tags: BTreeSet<String> = BTreeSet::new();
+            let mut e = fresh(&rules, &tags, true, false);
+            let mut history: Vec<String> = vec![];
+            let mut h = Hist { evals: 0, nt: false, viol: vec![], sample: json!(null), state_changes: 0, regex_events: 0, stale: 0, reuse: 0 };
+            let steps: Vec<(&str, Vec<&str>)> = vec![("use", vec!["t1"]), ("q", vec![]), ("use", vec![]), ("use", vec!["t2"]), ("q", vec![]), ("reload", vec![]), ("q", vec![])];
+            for (op, arg) in steps {
+                match op {
+                    "use" => {
+                        history.push(format!("use_tags({:?})", arg));
+                        e.use_tags(&arg);
+                        tags = arg.iter().map(|s| s.to_string()).collect();
+                        h.state_changes += 1;
+                    }
+                    "reload" => {
+                        history.push("serialize_raw(); deserialize()".into());
+                        let buf = e.serialize_raw().expect("serialize");
+                        e.deserialize(&buf).expect("deserialize");
+                        h.state_changes += 1;
+                    }
+                    _ => {
+                        let f = fresh(&rules, &tags, true, false);
+                        for u in [&u1, &u2] {
+                            let rq = Request::new(u, "https://other.org/", "script").unwrap();
+                            history.push(format!("check({})", u));
+                            let got = ask(&e, &rq);
+                            let want = ask(&f, &rq);
+                            h.evals += 1;
+                            if !got.same_verdict(&want) {
+                                h.viol.push((
+                                    "C06:network-answer-depends-on-history".into(),
+                                    json!({"rules": rules, "history": history, "engine_with_history": got.to_json(), "fresh_engine": want.to_json()}),
+                                ));
+                            }
+                        }
+                    }
+                }
+            }
+            let (stale, regex_events, reuse) = drain_stale(&mut h.viol, &rules, &history);
+            h.stale = stale;
+            h.regex_events = regex_events;
+            h.reuse = reuse;
+            h.nt = regex_events >= 2;
             h.sample = json!({"rules": rules, "history": history});
             h
         });
